@@ -239,4 +239,22 @@ def pipeline (aesni : Bool) (raw : List Cfg) (sni : Bytes) (localAddr : Option B
 def strictSNIForbidden (c : Cfg) (tlsConn : Bool) (sni hostname : Bytes) : Bool :=
   !c.disableSNIMatching && tlsConn && c.clientAuth != 0 && lower sni != lower hostname
 
+/-- what a request over a (TLS) connection gets: a site's chain, 403, or site-not-found -/
+inductive Served where
+  | site (i : Nat)
+  | forbidden
+  | notFound (status : Nat)
+deriving Repr, DecidableEq
+
+/-- `serveHTTP`: vhost lookup (the C01 model), then the strict SNI check with the TLS settings
+of the site found (`cfgs[i]` = `sites[i].TLS`; `sni = none`: `r.TLS == nil`) -/
+def serveTLS (sites : List Casket.VHost.Site) (cfgs : List Cfg) (r : Casket.VHost.Req) (sni : Option Bytes) : Served :=
+  match Casket.VHost.route sites r with
+  | .notFound st => .notFound st
+  | .site i _ =>
+    match cfgs[i]? with
+    | none => .site i
+    | some c =>
+      if strictSNIForbidden c sni.isSome (sni.getD []) (Casket.VHost.stripPort r.host) then .forbidden else .site i
+
 end Casket.TLSGroup
